@@ -52,3 +52,33 @@ func vxH19Ufs(dotu bool, batch int) {
 	vxReach("done")
 }
 
+
+// H19.ufswrite: a Twrite is still executing in the Unix file server while the connection receives more than a
+// receive buffer's worth of further requests (each naming a different, unknown fid): the bytes the write hands to
+// the file must not be touched by the receive loop.
+func vxH19UfsWrite(msize int, nmore int) {
+	k := vxNewUfsKit(true, uint32(msize))
+	root := k.rootDir()
+	k.fs.addFile(root, "f", 0644, []byte{1, 2, 3})
+	nc := vxNewNetConn()
+	k.ufs.NewConn(nc)
+	nc.in <- refEncode(Tversion, NOTAG, []refItem{refU32(uint32(msize)), refS("9P2000.u")}, true)
+	vxQuiesce()
+	nc.in <- refEncode(Tattach, 1, []refItem{refU32(0), refU32(NOFID), refS(""), refS(""), refU32(0)}, true)
+	vxQuiesce()
+	nc.in <- refEncode(Twalk, 1, []refItem{refU32(0), refU32(1), {kind: rkNstr, ss: []string{"f"}}}, true)
+	vxQuiesce()
+	nc.in <- refEncode(Topen, 1, []refItem{refU32(1), refU8(ORDWR)}, true)
+	vxQuiesce()
+	before := len(nc.writes)
+	vxAssert(before == 4, "prologue-answered")
+	stream := refEncode(Twrite, 10, []refItem{refU32(1), refU64(0), {kind: rkData, cnt: 3, b: vxBytes("payload", 3)}}, true)
+	for i := 0; i < nmore; i++ {
+		// msize-sized requests on unknown fids (a walk with a 13-byte name is exactly 32 bytes)
+		stream = append(stream, refEncode(Twalk, uint16(20+i), []refItem{refU32(uint32(100 + i)), refU32(uint32(200 + i)), {kind: rkNstr, ss: []string{"0123456789abc"}}}, true)...)
+	}
+	nc.in <- stream
+	vxQuiesce()
+	vxAssert(len(nc.writes) == before+1+nmore, "all-answered")
+	vxReach("done")
+}
